@@ -593,6 +593,10 @@ pub fn run_one_via(run: usize, gen: &mut Gen, len: usize, vias: &[&str], out: &m
             _ => now += 100_000,
         }
         let (c, argv) = if e_ms != 0 && gen.rng.gen_range(0..6) == 0 { abs_command(gen, now, e_ms) } else if gen.rng.gen_range(0..12) == 0 { gen.extra_command() } else if gen.rng.gen_range(0..14) == 0 { gen.script_command() } else { gen.command() };
+        // active expiry (the TTL manager's EvictExpired message) between two commands: no step of the model
+        if gen.rng.gen_range(0..8) == 0 {
+            let _ = ex.evict_expired_direct(VirtualTime::from_millis(now));
+        }
         let pick = vias[gen.rng.gen_range(0..vias.len())];
         let via = if ScriptOp::is(&c) { "direct" } else { pick };
         let s = step_via(&mut ex, run, now, &c, &argv, via, out);
